@@ -1,6 +1,8 @@
 """C03 - responses are linear in the sources: superposition over sources and signal kinds.
 
   translate  lcapy/mnacpts.py `_stamp` methods -> Gen/StampsGen.v (tools/tr_stamps.py, shared with C01)
+             lcapy/superposition.py kinds/select/transient/time/laplace/netval, lcapy/netlist.py _analysis_groups
+             -> Gen/SuperposGen.v (tools/tr_superpos.py, fail-closed statement templates)
   prove      props/C03a-d.v   per stamp-defining class (src_affine_<Class>): the matrix part does not depend on the
                               independent-source / initial-condition parameters (par pIsc, par pVoc), the right-hand
                               side is  a * rhs(1,0) + b * rhs(0,1)  in them, success of the stamp does not depend on them
@@ -9,6 +11,8 @@
              props/C03net.v   induction over the netlist: asm_src_add/_scale, mna_superposition, mna_scaling,
                               mna_response_additive/_homogeneous, mna_kill_sum (responses with all but one
                               source group zeroed sum to the whole, any grouping)
+             props/C03sup.v   the regenerated signal-kind tables equal the hand model: gen_kinds_sound, gen_view_sound,
+                              gen_transient_sound, gen_agroup_sound, agroups_spec_gen, analysis_groups_cover_gen
              theory/LinearSys.v       generic linear-system facts (uniqueness => linear response)
              theory/SuperposModel.v   hand model of lcapy.Superposition (add, decompose, dc/ac/transient parts,
                               kinds, select, time()/laplace()) and of the noise rules: decompose_reassemble,
@@ -34,6 +38,7 @@ sys.path.insert(0, os.path.dirname(os.path.dirname(os.path.abspath(__file__))))
 from vlib import core, netgen
 sys.path.insert(0, os.path.join(core.VERIF, 'tools'))
 import tr_stamps as TS
+import tr_superpos as TSP
 
 PID = 'C03'
 MANIFEST = {
@@ -45,14 +50,19 @@ MANIFEST = {
             'A hand model of the Superposition container proves that decompose() keeps the time and Laplace images, that the '
             'dc/ac/transient parts and any other grouping reassemble to the whole, that the analysis kinds cover every source '
             'term, and the noise rules (same identifier: amplitudes add; distinct identifiers: powers add; order independent). '
-            'Both models are tied to the real code on every run by evaluation inside Coq on generated circuits and containers.',
-    'note': 'Trusted: Coq kernel/vm_compute; tools/tr_stamps.py; hand models coq/props/C01model.v (assembly), C03defs.v/C03model.v, '
+            'The tables that decide which analysis a part of a source goes to (kinds(transform), select, transient, netval keywords, '
+            'Netlist._analysis_groups) are regenerated from lcapy/superposition.py and lcapy/netlist.py by a fail-closed translator and '
+            'proved equal to the model (gen_kinds_sound, gen_view_sound, gen_transient_sound, gen_agroup_sound), so the ivp / time-domain '
+            'shortcuts provably use the same total as the per-kind analyses (analysis_groups_cover_gen). '
+            'Both models are tied to the real code on every run by evaluation inside Coq on generated circuits (all analysis kinds incl. '
+            'phasor and noise kinds over Gaussian rationals, mutual inductance with initial currents, dc kinds with capacitors at eps = 0) and containers.',
+    'note': 'Trusted: Coq kernel/vm_compute; tools/tr_stamps.py, tools/tr_superpos.py; hand models coq/props/C01model.v (assembly), C03defs.v/C03model.v, '
             'coq/theory/MNA.v (unknown ordering, reporting), SuperposModel.v (container) validated by correspondence; sympy linear '
             'solve, inverse Laplace, term classification (coeff(t,0)/is_ac) and node merging of killed sources are oracles whose '
             'results are checked per case, not verified; the structural replacement V -> wire / I -> open is checked by comparing '
             'kill_except responses with the zero-valued-source model; well-posedness (injectivity) is a hypothesis of the '
             'linear-response theorems. Time-domain expressions are compared through an exact canonical monomial form.',
-    'technique': 'Coq proof over stamps translated from source + induction over netlists + hand model of the container with '
+    'technique': 'Coq proof over stamps and signal-kind tables translated from source + induction over netlists + hand model of the container with '
                  'in-Coq correspondence evaluation (Gaussian rationals) + exact metamorphic search oracle',
 }
 
@@ -819,11 +829,31 @@ def mna_checks(ci, case, wr, tr, res, flags):
                 cands = [k_ for k_ in kg['sub'] if k_ in ('transient',)]
                 if len(kg['sub']) == 1 and cands:
                     ksub = kg['sub'][cands[0]]
+            if ksub is None and re.match(r'^n\d+$', kind):
+                # an unnamed noise source gets a fresh automatic identifier in every copy of the netlist
+                nk = [k_ for k_ in kg['sub'] if k_.startswith('n')]
+                if len(nk) == 1 and len([k_ for k_ in wr['kinds'] if k_.startswith('n')]) == 1:
+                    ksub = kg['sub'][nk[0]]
+            if ksub is None and 'time' in kg['sub'] and 'Vbk' in kg['sub']['time'] and \
+                    (kind in ('dc', 'transient') or kind.startswith('w:')):
+                # the killed circuit has no s-domain source left and is analysed in the time domain: take the
+                # part of its time-domain result that belongs to this kind
+                kt = kg['sub']['time']
+
+                def part(bk):
+                    if bk is None:
+                        return None
+                    if kind == 'dc':
+                        return bk['dc']
+                    if kind == 'transient':
+                        return bk['tr']
+                    return bk['ac'].get('%d/%d' % (Fraction(kind[2:]).numerator, Fraction(kind[2:]).denominator), '0/1')
+                ksub = {'Vdict': {n_: part(b_) for n_, b_ in kt['Vbk'].items()},
+                        'Idict': {n_: part(b_) for n_, b_ in kt['Ibk'].items()}}
+                res.count('killed_time_domain_split_by_kind')
             if ksub is None:
                 if all(v == Z0 for v in xg):
                     continue
-                if kind in kg['sub'] or not kg['sub']:
-                    pass
                 res.count('killed_kind_missing')
                 if not kg['sub'] and any(v != Z0 for v in xg):
                     checks.append(('%d/%s/kill_%s/no_analysis' % (ci, kl_, g), None, 'false'))
@@ -1093,6 +1123,14 @@ def oracle_circuit(case, wr, res):
                 if kd_ not in wr['kinds']:
                     out.append({'key': 'groups:kind-not-analysed:' + tag, 'case': case,
                                 'what': 'source %s has a %s part but the circuit has no %s analysis (kinds %s)' % (sname, tag, kd_, list(wr['kinds']))})
+        elif exp['dc'] != Z0 or exp['ac'] or exp['tr'] != Z0:
+            gk = 'ivp' if wr.get('is_ivp') else 'time'
+            if sname not in wr.get('groups', {}).get(gk, []):
+                out.append({'key': 'groups:source-not-in-' + gk, 'case': case,
+                            'what': 'source %s has a non-noise value but is not in the %s analysis group %s' % (sname, gk, wr.get('groups'))})
+        if noise is not None and noise != 0 and not wr.get('is_ivp') and not any(k_.startswith('n') for k_ in wr['kinds']):
+            out.append({'key': 'groups:noise-not-analysed', 'case': case,
+                        'what': 'noise source %s but the circuit has no noise analysis (kinds %s)' % (sname, list(wr['kinds']))})
         # per-kind selection: the value the sub-netlist of each kind uses
         for kind, kd in wr['kinds'].items():
             e = [x for x in kd['elements'] if x['name'] == sname]
@@ -1352,6 +1390,7 @@ def run(tier='quick', replay=None):
     try:
         res.trusted = ['Coq 8.16.1 kernel + vm_compute',
                        'translator tools/tr_stamps.py (sha256 %s)' % core.sha256_file(os.path.join(core.VERIF, 'tools', 'tr_stamps.py'))[:16],
+                       'translator tools/tr_superpos.py (sha256 %s)' % core.sha256_file(os.path.join(core.VERIF, 'tools', 'tr_superpos.py'))[:16],
                        'hand models coq/props/C01model.v (assembly), C03defs.v, C03model.v, coq/theory/MNA.v (unknown ordering, reporting), '
                        'coq/theory/SuperposModel.v (container, noise) - validated by correspondence on every run',
                        'oracles (modelled, contract checked per case): sympy matrix solve, inverse Laplace, coeff(t,0)/is_ac term classification, node merging of killed sources',
@@ -1374,6 +1413,15 @@ def run(tier='quick', replay=None):
             res.failed_obl.append(('translate', 'lcapy/mnacpts.py', str(e)))
             res.obligations += 1
             tr = None
+        trs = None
+        try:
+            trs = TSP.SuperposTranslator(os.path.join(core.REPO, 'lcapy', 'superposition.py'), os.path.join(core.REPO, 'lcapy', 'netlist.py'))
+            trs.translate_all()
+            texts['SuperposGen.v'] = TSP.emit(trs)
+        except TSP.Untranslatable as e:
+            res.failed_obl.append(('translate_superposition', 'lcapy/superposition.py, lcapy/netlist.py', str(e)))
+            res.obligations += 1
+            trs = None
         for c_ in cases:
             if c_['type'] == 'circuit':
                 c_['tp_src'] = tr.tp_src if tr is not None else {}
@@ -1385,6 +1433,18 @@ def run(tier='quick', replay=None):
         log('start impl on %d cases' % len(cases))
         th.start()
         model_ok = False
+        sup_results = {}
+        if trs is not None:
+            w.write('SuperposGen.v', texts['SuperposGen.v'])
+            texts['C03sup.v'] = open(os.path.join(core.VERIF, 'coq', 'props', 'C03sup.v')).read()
+            w.write('C03sup.v', texts['C03sup.v'])
+            r_ = core.coqc_many(w.dir, ['SuperposGen.v'], timeout=300)
+            sup_results.update(r_)
+            if r_['SuperposGen.v'][0]:
+                sup_results.update(core.coqc_many(w.dir, ['C03sup.v'], timeout=300))
+            else:
+                res.failed_obl.append(('gen_agroup_sound', 'C03sup.v', 'not checked: Gen.SuperposGen does not compile'))
+                res.obligations += 1
         if tr is not None:
             w.write('StampsGen.v', texts['StampsGen.v'])
             ok, out, secs = core.coqc(w.dir, 'StampsGen.v')
@@ -1420,9 +1480,13 @@ def run(tier='quick', replay=None):
                         else:
                             res.failed_obl.append(('mna_superposition', 'C03net.v', 'not checked: a per-class linearity lemma (Gen.C03a-d/C03) failed'))
                             res.obligations += 1
+                allr.update(sup_results)
+                sup_results = {}
                 res.coq_results(w.dir, allr, {f: texts[f] for f in allr})
                 res.extra['coq_seconds'] = {f: round(r[2], 1) for f, r in allr.items()}
                 res.extra['unsupported_stamps'] = tr.unsupported
+        if sup_results:
+            res.coq_results(w.dir, sup_results, {f: texts[f] for f in sup_results})
         for f in ('LinearSys.v', 'SuperposModel.v'):
             names = core.obligations_in(open(os.path.join(core.COQ_THEORY, f)).read())
             res.obligations += len(names)
@@ -1581,8 +1645,8 @@ def explained(label, oracle_keys):
     last = label.split('/')[-1]
     if '/kill_' in label or 'group_' in last or 'full_solution' in last:
         pre = ('kill_except:', 'superposition:', 'scaling')
-    elif last.startswith(('dec_', 'ac_', 'dc', 'kinds', 'transient', 'time', 'laplace', 'select_')):
-        pre = ('decompose:', '__add__:', 'reassembly:', 'container:', 'source-value:', 'select:')
+    elif last.startswith(('dec_', 'ac_', 'dc', 'kinds', 'transient', 'time', 'laplace', 'select_', 'agroups')):
+        pre = ('decompose:', '__add__:', 'reassembly:', 'container:', 'source-value:', 'select:', 'groups:')
     elif last.startswith(('noise', 'accumulate_n')):
         pre = ('noise:',)
     else:
@@ -1638,6 +1702,26 @@ def select_checks(ci, sname, dump, wr, wmap, nmap, res):
         else:
             continue
         out.append(('%d/src_%s/select_%s' % (ci, sname, kl_), defn, ex))
+    # the analysis groups the source is listed in (Netlist._analysis_groups)
+    if wr.get('groups'):
+        mode = 'AIvp' if wr.get('is_ivp') else ('ATime' if wr.get('is_time_domain') else 'AGeneral')
+        impl = []
+        for gk, members in wr['groups'].items():
+            if sname not in members:
+                continue
+            if gk == 'ivp':
+                impl.append('AgIvp')
+            elif gk == 'time':
+                impl.append('AgTime')
+            elif gk == 'dc':
+                impl.append('(AgKind GDC)')
+            elif gk == 'transient':
+                impl.append('(AgKind GTR)')
+            elif gk.startswith('w:') and '?' not in gk:
+                impl.append('(AgKind (GAC %d))' % wid(wmap, gk[2:]))
+            elif gk.startswith('n'):
+                impl.append('(AgKind (GN %d))' % nidnum(nmap, gk))
+        out.append(('%d/src_%s/agroups' % (ci, sname), defn, 'check_agroups %s %s [%s]' % (mode, name, '; '.join(impl))))
     return out
 
 
